@@ -238,6 +238,7 @@ PROPERTIES = {
   'C14': {
     'verus': ['lexer', 'parsetok', 'prodloc'],
     'verus_route': {'lexer': 'positions'},
+    'quick_witness': ['loctree'],
     'kani': ['loc'],
     'level': 'proof',
     'scope': 'kernels only: Position order / Location contains / union algebra over all u32 values; the lexer\'s tracked '
